@@ -2485,6 +2485,46 @@ oracle = no panic; success xor (diagnostic with file/line/col or close error); i
 				check_c06(cx, &Project::single(text.as_bytes()), Expect::Any, "expression", &dir);
 				if cx.report.oracle_failures_total >= 20 {break;}
 			}
+			// two-operator chains of one operator family around a name that is still unvalued (declared .global, defined below) or a
+			// register, with boundary constants on both sides: the places where the simplifier merges two constants (`(c / x) / d`,
+			// `(x * c) * d`, `c - (x - d)`, `(x << c) >> d` …) must report, never panic (`MIN / -1`, `MIN * -1`, shift totals, `% 0`)
+			{
+				let cs = ["0", "1", "-1", "(1 << 63)", "9223372036854775807", "2", "64", "4294967296"];
+				let pairs = [("+", "+"), ("+", "-"), ("-", "+"), ("-", "-"), ("*", "*"), ("*", "/"), ("/", "*"), ("/", "/"), ("%", "%"), ("&", "&"), ("|", "|"), ("^", "^"),
+					("<<", "<<"), ("<<", ">>"), (">>", "<<"), (">>", ">>"), ("/", "%"), ("%", "/")];
+				let mut k = 0u64;
+				for (o1, o2) in pairs
+				{
+					for c in cs
+					{
+						for d in cs
+						{
+							for form in 0..4
+							{
+								k += 1;
+								let v = if k % 4 == 3 {"r0"} else {"x"};
+								let e = match form
+								{
+									0 => format!("({c} {o1} {v}) {o2} {d}"),
+									1 => format!("({v} {o1} {c}) {o2} {d}"),
+									2 => format!("{c} {o1} ({v} {o2} {d})"),
+									_ => format!("{c} {o1} ({d} {o2} {v})"),
+								};
+								let xv = ["0", "1", "-1", "(1 << 63)", "9223372036854775807", "5"][(k % 6) as usize];
+								let text = match k % 3
+								{
+									0 => format!(".addr 0x100;\n.global x;\n.du32 {e};\n.const x, {xv};\n"),
+									1 => format!(".addr 0x100;\n.global x;\nMOVS R0, ({e}) & 0xFF;\n.const x, {xv};\n"),
+									_ => format!(".addr 0x100;\n.global x;\nLDR R1, [R2 + ({e})];\nx:\n"),
+								};
+								check_c06(cx, &Project::single(text.as_bytes()), Expect::Any, "expression", &dir);
+							}
+						}
+					}
+					if cx.report.oracle_failures_total >= 20 {break;}
+				}
+				cx.report.hit_n("two-operator chains around an unvalued name or register with boundary constants", k);
+			}
 			// literals: characters of every UTF-8 width (and escapes) in character and string literals, whole and damaged
 			let chars: Vec<char> = vec!['a', '~', ' ', '\t', '\u{7f}', '\u{80}', '\u{e9}', '\u{7ff}', '\u{800}', '\u{20ac}', '\u{d7ff}', '\u{e000}', '\u{fffd}', '\u{ffff}',
 				'\u{10000}', '\u{1F600}', '\u{10FFFF}', '\'', '"', '\\', '\n', '\r', '\0'];
